@@ -22,12 +22,22 @@ def col(c):
 def norm_sql(s):
     return re.sub(r'\s+', ' ', s).strip().rstrip(';').strip()
 
+def pidx(num, counter):
+    """index of a placeholder: `?N` is the N-th parameter, an anonymous `?` the next one (SQLite: one more than the largest
+    index used so far)"""
+    if num:
+        i = int(num) - 1
+        counter[0] = max(counter[0], i + 1)
+        return i
+    i = counter[0]; counter[0] += 1
+    return i
+
 def parse_where(w, counter):
     conds = []
     for part in re.split(r'\s+and\s+', w.strip(), flags=re.I):
-        m = re.fullmatch(r'(\w+)\s*=\s*\?', part.strip())
+        m = re.fullmatch(r'(\w+)\s*=\s*\?(\d*)', part.strip())
         if not m: return None
-        conds.append((m.group(1), counter[0])); counter[0] += 1
+        conds.append((m.group(1), pidx(m.group(2), counter)))
     return conds
 
 def parse_stmt(sql):
@@ -45,17 +55,19 @@ def parse_stmt(sql):
     if m and m.group(2).lower() in TBLS:
         cols = [c.strip() for c in m.group(3).split(',')]
         vals = [v.strip() for v in m.group(4).split(',')]
-        if len(cols) != len(vals) or any(v != '?' for v in vals) or not all(re.fullmatch(r'\w+', c) for c in cols): return other
-        return f'(.insert {"true" if m.group(1) else "false"} .{m.group(2).lower()} [{", ".join(col(c) for c in cols)}] [{", ".join(str(i) for i in range(len(vals)))}])'
+        if len(cols) != len(vals) or any(not re.fullmatch(r'\?\d*', v) for v in vals) or not all(re.fullmatch(r'\w+', c) for c in cols): return other
+        cnt = [0]
+        idxs = [pidx(v[1:], cnt) for v in vals]
+        return f'(.insert {"true" if m.group(1) else "false"} .{m.group(2).lower()} [{", ".join(col(c) for c in cols)}] [{", ".join(str(i) for i in idxs)}])'
     m = re.fullmatch(r'update\s+(\w+)\s+set\s+(.+?)\s+where\s+(.+)', s, re.I)
     if m and m.group(1).lower() in TBLS:
         cnt = [0]; sets = []
         for part in m.group(2).split(','):
             p = part.strip()
-            a = re.fullmatch(r'(\w+)\s*=\s*\?', p)
+            a = re.fullmatch(r'(\w+)\s*=\s*\?(\d*)', p)
             b = re.fullmatch(r'(\w+)\s*=\s*(\w+)\s*\+\s*(\d+)', p)
             if a:
-                sets.append(f'({col(a.group(1))}, .param {cnt[0]})'); cnt[0] += 1
+                sets.append(f'({col(a.group(1))}, .param {pidx(a.group(2), cnt)})')
             elif b:
                 sets.append(f'({col(b.group(1))}, .colPlus {col(b.group(2))} {b.group(3)})')
             else:
